@@ -10,7 +10,8 @@
 (*            the same object to every country of its loop (a run `joined` *)
 (*            to its predecessor runs in the same call, later in the       *)
 (*            country table)                                               *)
-(*   tables   the input tables of the herd model, keyed by country         *)
+(*   tables   the input tables of the herd model, keyed by country, and    *)
+(*            the scenario loader's table of intake limits ("limits")      *)
 (*   horizon  the settings-level default horizon of one yaml front-end     *)
 (*            call, which every simulation of the call receives (a         *)
 (*            simulation's own NMONTHS key is overridden by design)        *)
@@ -37,6 +38,7 @@ CONSTANTS RunTypes,        \* distinguishable runs (different population, nutrit
           Failing,         \* the run types that raise after establishing their settings
           Patched,         \* the run types whose (country, options) is a "known to fail" combination that gets corrected
           Overriding,      \* the run types whose options carry numeric overrides of the herd tables
+          LimitEditors,    \* the run types whose options replace entries of the loader's intake-limit table (for that run only)
           CountryOf,       \* run type -> country
           OptOf,           \* run type -> identity of its option dictionary (equal = may share one by-country call)
           TablePos,        \* country -> position in the country table (the loop order of a by-country call)
@@ -44,7 +46,7 @@ CONSTANTS RunTypes,        \* distinguishable runs (different population, nutrit
           OwnHorizon,      \* the run types whose options carry their own NMONTHS key
           MaxLen, Broken, Emit
 
-ASSUME Broken \in {"none", "ReadsBeforeSet", "CorrectsInPlace", "OverridesShared", "RebindsHorizon"}
+ASSUME Broken \in {"none", "ReadsBeforeSet", "CorrectsInPlace", "OverridesShared", "RebindsHorizon", "EditsSharedLimits"}
 \* how a run is called: directly (its own by-country call), as a further country of the previous by-country call, as the first
 \* simulation of a yaml front-end call, or as a further simulation of the previous yaml call
 Forms == {"direct", "country", "yamlfirst", "yamlnext"}
@@ -61,13 +63,15 @@ VARIABLES globals,   \* the run type whose settings are in force ("fresh" in a n
 pvars == <<globals, optobj, tables, horizon, hist, joined, results, pc>>
 
 OwnOptions(r) == IF r \in Patched THEN "corrected" ELSE "asgiven"
-OwnTable(r) == IF r \in Overriding THEN <<"overridden", r>> ELSE <<"asread">>
+OwnTable(r) == <<IF r \in Overriding THEN <<"overridden", r>> ELSE <<"asread">>,
+                 IF r \in LimitEditors THEN <<"edited", r>> ELSE <<"asread">>>>
 \* a direct call uses the run's own horizon, a yaml call the settings' (whatever the simulation says)
 OwnHorizonRead(f) == IF IsYaml(f) THEN "settings" ELSE "own"
 Solo(r, f) == IF r \in Failing THEN <<r, "failed">>
               ELSE <<r, IF Broken = "ReadsBeforeSet" THEN "fresh" ELSE r, OwnOptions(r), OwnTable(r), OwnHorizonRead(f)>>
 
-PInit == /\ globals = "fresh" /\ optobj = "asgiven" /\ horizon = "settings" /\ tables = [c \in {CountryOf[r] : r \in RunTypes} |-> <<"asread">>]
+PInit == /\ globals = "fresh" /\ optobj = "asgiven" /\ horizon = "settings"
+         /\ tables = [c \in {CountryOf[r] : r \in RunTypes} \cup {"limits"} |-> <<"asread">>]
          /\ hist = <<>> /\ joined = <<>> /\ results = <<>> /\ pc = <<"idle">>
 
 CanJoin(r, f) ==
@@ -105,8 +109,11 @@ SetGlobals(r) == /\ pc[1] = "set" /\ pc[2] = r
 
 LoadTables(r) == /\ pc[1] = "load" /\ pc[2] = r
                  /\ LET c == CountryOf[r] IN
-                      /\ pc' = <<"compute", r, pc[3], pc[4], pc[5], IF r \in Overriding THEN <<"overridden", r>> ELSE tables[c]>>
+                      /\ pc' = <<"compute", r, pc[3], pc[4], pc[5],
+                                 <<IF r \in Overriding THEN <<"overridden", r>> ELSE tables[c],
+                                   IF r \in LimitEditors THEN <<"edited", r>> ELSE tables["limits"]>>>>
                       /\ tables' = IF Broken = "OverridesShared" /\ r \in Overriding THEN [tables EXCEPT ![c] = <<"overridden", r>>]
+                                    ELSE IF Broken = "EditsSharedLimits" /\ r \in LimitEditors THEN [tables EXCEPT !["limits"] = <<"edited", r>>]
                                     ELSE tables
                  /\ UNCHANGED <<globals, optobj, horizon, hist, joined, results>>
 
